@@ -24,7 +24,19 @@ RULE = ("histories of Library.add (single, list, fail_on_duplicate_key), remove 
         "keys). A subclass instance is encoded for the model like a plain instance of its base class (the library may "
         "only use isinstance); when two structurally equal twins get different classes they are unequal for Python "
         "but not for the model, and the case is judged by the oracle alone. After EVERY call all eight views are compared with "
-        "the model by object identity and checked against the property. distinct = distinct history; non-trivial = "
+        "the model by object identity and checked against the property. TEXT-MACHINERY KEYS x PARSED-LOOKING BLOCKS: the two "
+        "keys are instantiated with keys that mean something to str.format / %-formatting / string.Template / re / repr "
+        "(braces, named and positional fields, unbalanced braces, %s, %(x)s, lone %, $x, backslashes, quotes, newlines, regex "
+        "and glob characters), with selfref.MAGIC_WORDS, with keys of 300 - 5000 characters that differ only in the last / "
+        "first character, and with pairs that a text transformation would identify ('{{' / '{', '%%' / '%', 'a\\n' / 'a'); "
+        "every block of the universe is built with start_line / raw None, or with concrete start lines (0-based or offset) and "
+        "the raw text a parser would have recorded (which contains the key), or a per-block mix (also: line without raw, raw "
+        "without line): six fixed collision scripts for EVERY key of the pool x both builds, all histories to depth 2 over 11 "
+        "calls for fixed and drawn key pairs x both builds, depth 2 over 32 calls and depth 3 over 11 calls for one pair, "
+        "random histories with random keys / builds / classes (more of each in thorough). In all streams a call may raise "
+        "ValueError only where the documented interface allows it (add: fail_on_duplicate_key=True and a duplicate was "
+        "wrapped; remove: an argument is not held; replace: the old block is not held, or the mode is not False). "
+        "distinct = distinct history; non-trivial = "
         "some call wraps a duplicate, raises, removes or replaces a held block")
 TRUSTED = ["object identity observed with id() on objects kept alive by the harness; wrapper objects are numbered by "
            "first appearance in the transcript on both sides"]
@@ -239,6 +251,135 @@ ALPHA11 = (
 )
 
 
+# Keys that are special to some Python text machinery.  For the library a key is a dict key and the label of a duplicate
+# wrapper; nothing in the property lets a brace, a percent sign, a dollar, a backslash, a quote, a line break, the length
+# or a coincidence with a word the library uses elsewhere matter.  (Parsed keys cannot contain most of these characters;
+# blocks built or re-keyed through the API can.)
+FORMAT_KEYS = ["{}", "{0}", "{1}", "{key}", "{line}", "{a}", "{Knuth1984}", "{", "}", "{{", "}}", "{{}}", "{{a}}", "}{",
+               "a{b}c", "Knuth{", "a}", "{0!r}", "{0:>8}", "{a.b}", "{a[0]}", "{!}", "{:}", "{start_line}", "{self}"]
+PERCENT_KEYS = ["%s", "%(x)s", "%(key)s", "%(line)d", "%", "%%", "%d", "%r", "100%", "a%sb", "%s%s", "%(", "%c", "% d"]
+TEMPLATE_KEYS = ["$x", "${x}", "$", "$$", "$key", "${", "a$b", "$1"]
+BACKSLASH_KEYS = ["\\", "\\\\", "\\n", "\\1", "\\g<0>", "\\x", "a\\", "\\{", "\\'", "\\N{DASH}", "\\u0041"]
+QUOTE_KEYS = ["'", '"', "'a'", '"a"', "'''", '"""', "a'b", 'a"b', "'\"", "`a`"]
+NEWLINE_KEYS = ["\n", "a\nb", "a\n", "\na", "\r\n", "a\r", "a\r\nb", "\n\n", "a\u2028b", "a\x85", "a\x00b"]
+REGEX_GLOB_KEYS = [".*", "a.b", "(a", "a)", "[a]", "[", "a|b", "^a$", "a+", "a?", "*", "\\d", "(?i)a", "a{2}"]
+_L300, _L1100, _L5000 = "k" * 300, "kq" * 550, "k" * 5000
+LONG_KEYS = [_L300 + "a", _L300 + "b", "a" + _L300, "b" + _L300, _L1100 + "a", _L1100 + "b"]
+HUGE_KEYS = [_L5000 + "a", _L5000 + "b"]               # short histories only
+# pairs that some text transformation would make equal: distinct keys must stay distinct
+COLLAPSE = [("{{", "{"), ("}}", "}"), ("{{a}}", "{a}"), ("{a}", "a"), ("{0}", "{}"), ("%%", "%"), ("%s", "%r"),
+            ("$$", "$"), ("${x}", "$x"), ("\\\\", "\\"), ("\\n", "\n"), ("\\x", "x"), ("\\u0041", "A"), ("a\n", "a"),
+            ("\na", "a"), ("a\r\nb", "a\nb"), ("'a'", "a"), ('"a"', "a"), ("'a'", '"a"'), ("a.b", "a?b"), ("[a]", "a"),
+            (LONG_KEYS[0], LONG_KEYS[1]), (LONG_KEYS[2], LONG_KEYS[3]), (LONG_KEYS[4], LONG_KEYS[5]),
+            (HUGE_KEYS[0], HUGE_KEYS[1])]
+TEXT_PAIRS_FIXED = [("{a}", "{"), ("%s", "%(x)s"), ("$x", "\\"), ("a\nb", "'")]
+
+
+def text_pool():
+    """every key of the class once, in a fixed order"""
+    from props import selfref
+    out = []
+    for k in (FORMAT_KEYS + PERCENT_KEYS + TEMPLATE_KEYS + BACKSLASH_KEYS + QUOTE_KEYS + NEWLINE_KEYS + REGEX_GLOB_KEYS +
+              list(selfref.MAGIC_WORDS) + LONG_KEYS + HUGE_KEYS):
+        if k not in out:
+            out.append(k)
+    return out
+
+
+def text_partner(rng, ka, pool):
+    """the second key of the universe: plain, another key of the class, or one that a text transformation maps to ka"""
+    twins = [b for a, b in COLLAPSE if a == ka] + [a for a, b in COLLAPSE if b == ka]
+    r = rng.random()
+    if r < 0.45:
+        if twins:
+            return rng.choice(twins)
+    elif r < 0.55:
+        return ka
+    elif r < 0.75:
+        return "b" if ka != "b" else "a"
+    kb = rng.choice(pool)
+    while len(kb) > 2000 and len(ka) < 2000:
+        kb = rng.choice(pool)
+    return kb
+
+
+def key_kinds(k):
+    from props import selfref
+    out = []
+    if "{" in k or "}" in k:
+        out.append("format-braces")
+    if "%" in k:
+        out.append("percent")
+    if "$" in k:
+        out.append("template-dollar")
+    if "\\" in k:
+        out.append("backslash")
+    if "'" in k or '"' in k or "`" in k:
+        out.append("quote")
+    if any(c in k for c in "\n\r\u2028\x85\x00"):
+        out.append("newline-or-control")
+    if any(c in k for c in "*?[]()|^.+"):
+        out.append("regex-glob")
+    if len(k) >= 200:
+        out.append("long")
+    if k in selfref.MAGIC_WORDS:
+        out.append("magic-word")
+    return out
+
+
+# How a block is placed in a file.  An input may carry "lines": one mode per universe block:
+#   0  start_line None, raw None (a block made by the caller)      1  0-based start line, the raw text a parser records
+#   2  start line offset by 7 (no block on line 0), raw text        3  as the universe is written above
+#   4  start line, raw None                                         5  raw text, start_line None
+LINES_NONE, LINES_PARSED0, LINES_PARSED7, LINES_WRITTEN, LINES_NORAW, LINES_NOLINE = range(6)
+
+
+def rand_lines(rng, n):
+    r = rng.random()
+    if r < 0.2:
+        return [LINES_NONE] * n
+    if r < 0.45:
+        return [rng.choice([LINES_PARSED0, LINES_PARSED7])] * n
+    pal = rng.choice([[0, 1], [0, 2], [0, 1, 2, 3], [0, 1, 2, 3, 4, 5], [1, 2, 4, 5]])
+    ln = [rng.choice(pal) for _ in range(n)]
+    if rng.random() < 0.75:
+        for a, b in TWINS:
+            if b < n:
+                ln[b] = ln[a]
+    return ln
+
+
+def key_text(k):
+    return k if type(k) is str else repr(k)
+
+
+def placed(mode, line, raw, text):
+    """(start_line, raw) of a block that the universe writes on `line` with raw text `raw`; `text` is what a parser
+    would have recorded for it"""
+    if mode == LINES_WRITTEN:
+        return line, raw
+    if mode == LINES_NONE:
+        return None, None
+    ln = 3 * line if mode == LINES_PARSED0 else 7 + 3 * line
+    return (None if mode == LINES_NOLINE else ln), (None if mode == LINES_NORAW else text)
+
+
+# collision scripts over the 8-block universe: every one builds duplicate wrappers (for entries and for strings, with
+# either same-key block as the first holder), fails a replace / an add on the key, and frees and re-takes the key
+SCRIPTS = [
+    {"ops": [add([U(E0)]), add([U(E1)]), rem([U(E0)]), add([U(E0)], 1), rep(H(0), IN(0), 1), rep(H(0), IN(0), 0)]},
+    {"ops": [add([U(E1)]), add([U(E0), U(S0), U(S1), U(P)], 2), rep(H(1), IN(1), 0), rem([H(1)]), rep(U(E1), U(E0), 2),
+             add([U(E1), U(S1)], 1)]},
+    {"ops": [add([U(E0)]), add([U(E2)]), rep(U(E2), U(E1), 1), rep(U(E2), U(E1), 0), rem([U(E0)]), rep(H(0), IN(0), 1)]},
+    {"ops": [add([U(S0)]), add([U(S1)]), rep(U(S0), U(S1), 1), rem([U(S0)]), add([U(S1)], 1), add([U(S0)], 1),
+             rep(H(0), U(E0), 2)]},
+    {"ctor": [E0, E1, S0, S1], "ops": [rep(H(1), IN(1), 2), rem([U(E0)]), rep(H(0), IN(0), 2), add([U(E0T), U(S1)], 1),
+                                        rem([U(S0), U(E1)])]},
+    {"ops": [add([U(E2), U(E0), U(E1), U(S0)], 2), add([U(C), U(S1), U(E0T)], 0), rem([U(E0), U(E2)]),
+             rep(H(0), IN(0), 1), rep(U(S0), U(S1), 2), rem([U(P)])]},
+]
+
+
 def rand_ref(rng, n):
     r = rng.random()
     if r < 0.55:
@@ -350,14 +491,61 @@ def generate(rng, tier):
         if rng.random() < 0.15:
             inp["ctor"] = [rng.randrange(13) for _ in range(rng.randint(0, 6))]
         cases.append({"stream": "sub_random", "input": inp})
+    # ---- keys that are special to some text machinery x blocks with / without start lines and raw text (drawn after
+    # everything above)
+    pool = text_pool()
+    both = ([LINES_NONE] * 8, [LINES_PARSED0] * 8, [LINES_PARSED7] * 8)
+    for ka in pool:
+        builds = [both[0], both[rng.choice([1, 2])]] if quick else list(both)
+        for ln in builds:
+            kb = text_partner(rng, ka, pool)
+            for sc in SCRIPTS:
+                inp = {"uni": 8, "keys": [ka, kb], "lines": list(ln), "ops": list(sc["ops"])}
+                if "ctor" in sc:
+                    inp["ctor"] = list(sc["ctor"])
+                cases.append({"stream": "text_scripts", "input": inp})
+    short = [k for k in pool if len(k) < 200]
+    pairs = list(TEXT_PAIRS_FIXED)
+    while len(pairs) < (8 if quick else 24):
+        ka = rng.choice(short)
+        kp = (ka, text_partner(rng, ka, short))
+        if kp not in pairs:
+            pairs.append(kp)
+    for kp in pairs:
+        for ln in (both[0], both[rng.choice([1, 2])]):
+            for h in itertools.product(ALPHA11, repeat=2):
+                cases.append({"stream": "text_exh2", "input": {"uni": 8, "keys": list(kp), "lines": list(ln), "ops": list(h)}})
+    for kp in (pairs[:1] if quick else pairs[:6]):
+        for ln in both[:2]:
+            for h in itertools.product(ALPHA32, repeat=2):
+                cases.append({"stream": "text_exh2w", "input": {"uni": 8, "keys": list(kp), "lines": list(ln), "ops": list(h)}})
+    for kp in (pairs[4:5] if quick else pairs[:8]):
+        for ln in (both[1:2] if quick else both[:2]):
+            for h in itertools.product(ALPHA11, repeat=3):
+                cases.append({"stream": "text_exh3", "input": {"uni": 8, "keys": list(kp), "lines": list(ln), "ops": list(h)}})
+    if not quick:
+        for ln in both[:2]:
+            for h in itertools.product(ALPHA32, repeat=3):
+                cases.append({"stream": "text_exh3w", "input": {"uni": 8, "keys": list(pairs[0]), "lines": list(ln),
+                                                                "ops": list(h)}})
+    for _ in range(500 if quick else 12000):
+        ka = rng.choice(pool)
+        kb = text_partner(rng, ka, pool)
+        n = rng.randint(1, 30 if len(ka) + len(kb) < 2000 else 6)
+        inp = {"uni": 13, "keys": [ka, kb], "lines": rand_lines(rng, 13), "ops": [rand_op(rng, 13) for _ in range(n)]}
+        if rng.random() < 0.25:
+            inp["sub"] = rand_levels(rng, 13)
+        if rng.random() < 0.15:
+            inp["ctor"] = [rng.randrange(13) for _ in range(rng.randint(0, 6))]
+        cases.append({"stream": "text_random", "input": inp})
     return cases
 
 
-def build_universe(n, keys=None, keyobjs=None, sub=None):
+def build_universe(n, keys=None, keyobjs=None, sub=None, lines=None):
     from bibtexparser import model as M
     out = []
     if sub is not None:
-        return [to_level(M, b, lv) for b, lv in zip(build_universe(n, keys, keyobjs), sub)]
+        return [to_level(M, b, lv) for b, lv in zip(build_universe(n, keys, keyobjs, None, lines), sub)]
 
     def key(k):
         j = "ab".index(k)
@@ -365,20 +553,31 @@ def build_universe(n, keys=None, keyobjs=None, sub=None):
             return make_key(keyobjs[j])
         return keys[j] if keys is not None else k
 
-    for d in (UNI8 if n == 8 else UNI13):
+    for j, d in enumerate(UNI8 if n == 8 else UNI13):
         t = d[0]
+        mode = LINES_WRITTEN if lines is None else lines[j]
         if t == "E":
-            out.append(M.Entry(d[1], key(d[2]), [M.Field(k, v, ln) for k, v, ln in d[3]], d[4], d[5]))
+            k = key(d[2])
+            ln, raw = placed(mode, d[4], d[5], "@" + d[1] + "{" + key_text(k) + "," +
+                             "".join("\n  " + fk + " = {" + fv + "}," for fk, fv, _ in d[3]) + "\n}")
+            out.append(M.Entry(d[1], k, [M.Field(fk, fv, fl if mode == LINES_WRITTEN else (None if ln is None else ln + 1))
+                                         for fk, fv, fl in d[3]], ln, raw))
         elif t == "S":
-            out.append(M.String(key(d[1]), d[2], d[3], d[4]))
+            k = key(d[1])
+            ln, raw = placed(mode, d[3], d[4], "@string{" + key_text(k) + ' = "' + d[2] + '"}')
+            out.append(M.String(k, d[2], ln, raw))
         elif t == "P":
-            out.append(M.Preamble(d[1], d[2], d[3]))
+            ln, raw = placed(mode, d[2], d[3], '@preamble{"' + d[1] + '"}')
+            out.append(M.Preamble(d[1], ln, raw))
         elif t == "C":
-            out.append(M.ExplicitComment(d[1], d[2], d[3]))
+            ln, raw = placed(mode, d[2], d[3], "@comment{" + d[1] + "}")
+            out.append(M.ExplicitComment(d[1], ln, raw))
         elif t == "I":
-            out.append(M.ImplicitComment(d[1], d[2], d[3]))
+            ln, raw = placed(mode, d[2], d[3], d[1])
+            out.append(M.ImplicitComment(d[1], ln, raw))
         else:
-            out.append(M.ParsingFailedBlock(Exception("boom"), d[1], d[2]))
+            ln, raw = placed(mode, d[1], d[2], "@article{" + d[2])
+            out.append(M.ParsingFailedBlock(Exception("boom"), ln, raw))
     return out
 
 
@@ -462,7 +661,8 @@ def impl(case):
     # the model has no classes below the library's own: a subclass instance is encoded like a plain instance of its
     # base class.  That is exact unless structurally equal twins differ in class (== is then False for Python)
     modelled = strkeys and (sub is None or twins_consistent(sub))
-    uni = build_universe(inp["uni"], inp.get("keys"), inp.get("keyobjs"), sub)
+    lines = inp.get("lines")
+    uni = build_universe(inp["uni"], inp.get("keys"), inp.get("keyobjs"), sub, lines)
     level = {id(b): lv for b, lv in zip(uni, sub)} if sub is not None else {}
 
     def enc_b(b):
@@ -598,11 +798,31 @@ def impl(case):
                 continue
             diff = views_equal(before, after)
             if diff is not None:
-                if kind == "add" and op.get("fail") == 1:
+                tail = ab[len(bb):]
+                if kind == "add" and op.get("fail") == 1 and same_ids(ab[:len(bb)], bb) and len(tail) == len(args) and \
+                        all(x is a or wraps(M, x, a) for x, a in zip(tail, args)) and \
+                        any(x is not a for x, a in zip(tail, args)):
                     known.append("K1")            # documented: duplicates are added, then ValueError is raised
                     tags.add("K1")
                 else:
                     problems.append(where + "raised ValueError but view %s changed" % diff)
+                continue
+            # ValueError with the library unchanged: only where the interface documents one
+            if kind in ("add", "ctor"):
+                allowed = kind == "add" and op.get("fail") == 1
+            elif kind == "remove":
+                rest = list(bb)
+                try:
+                    for a in args:
+                        rest.remove(a)
+                    allowed = False
+                except ValueError:
+                    allowed = True
+            else:
+                allowed = op["fail"] != 0 or old not in bb
+            if not allowed:
+                problems.append(where + "raised ValueError although every argument is acceptable (no duplicate was to be "
+                                        "refused, nothing was missing)")
             continue
         if kind in ("add", "ctor"):
             tail = ab[len(bb):]
@@ -642,7 +862,24 @@ def impl(case):
             tags.add("sub:subclass-of-subclass")
         if not twins_consistent(sub):
             tags.add("sub:twins-differ-in-class(oracle-only)")
-    if "keys" in inp:
+    if lines is not None:
+        for k in inp["keys"]:
+            for kk in key_kinds(k):
+                tags.add("text:key-" + kk)
+        if inp["keys"][0] == inp["keys"][1]:
+            tags.add("text:one-key-for-all")
+        elif tuple(inp["keys"]) in COLLAPSE or tuple(inp["keys"][::-1]) in COLLAPSE:
+            tags.add("text:keys-equal-after-a-text-transformation")
+        tags.add("lines:all-none" if not any(lines) else "lines:all-parsed" if all(m in (1, 2) for m in lines)
+                 else "lines:mixed")
+        for x in keep:
+            if isinstance(x, M.DuplicateBlockKeyBlock) and key_kinds(x.key):
+                tags.add("text:wrapper-built(holder-%s-line,%s)" % (
+                    "without" if x.previous_block.start_line is None else "with",
+                    "entry" if isinstance(x.ignore_error_block, M.Entry) else "string"))
+        if any(t.endswith(":raise") for t in tags):
+            tags.add("text:some-call-raises")
+    elif "keys" in inp:
         tags.add("keys:empty" if "" in inp["keys"] else "keys:boundary")
     if not strkeys:
         tags.add("keys:not-str")
